@@ -291,6 +291,10 @@ func (c *Ctx) contractCall(fr *Frame, st *State, site ssa.Instruction, fn *ssa.F
 			c.havocEverything(st)
 		}
 		for i, k := range kept {
+			if !strings.HasPrefix(k[1], "(Array") {
+				st.heap[k[0]] = keepTerms[i]
+				continue
+			}
 			c.nsym++
 			name := sym(fmt.Sprintf("%s@%d_kept", k[0], c.nsym))
 			c.declare(name, k[1])
@@ -503,6 +507,40 @@ func (c *Ctx) atCallAsserts(fr *Frame, st *State, site ssa.Instruction, callee *
 	}
 }
 
+// atInvokeAsserts checks "at call (Iface).Method assert e" clauses at an interface method call, whatever
+// the dynamic type of the receiver is. The callee's parameters are named as in the interface method's
+// signature (callee.self is the receiver).
+func (c *Ctx) atInvokeAsserts(fr *Frame, st *State, site ssa.Instruction, recv *Val, m *types.Func, args []*Val) {
+	top := c.topFrame
+	if top == nil || top.con == nil || c.pure > 0 || c.dry > 0 {
+		return
+	}
+	full := "(" + typeName(recv.T) + ")." + m.Name()
+	short := "(" + strings.TrimPrefix(typeName(recv.T), rootPkg+".") + ")." + m.Name()
+	for _, a := range top.con.Asserts {
+		if a.Effect != nil || (a.Where != "call "+full && a.Where != "call "+short) {
+			continue
+		}
+		env := &Env{c: c, fr: top, fn: top.fn, st: st, old: top.old, vars: map[string]*Val{}, fd: top.fd, cells: fr == top}
+		for i, p := range top.fn.Params {
+			if i < len(top.params) {
+				env.vars[p.Name()] = top.params[i]
+			}
+		}
+		env.vars["callee.self"] = recv
+		sig := m.Type().(*types.Signature)
+		for i := 0; i < sig.Params().Len() && i < len(args); i++ {
+			if nm := sig.Params().At(i).Name(); nm != "" && nm != "_" {
+				env.vars["callee."+nm] = args[i]
+			}
+			env.vars[fmt.Sprintf("callee.a%d", i)] = args[i]
+		}
+		g := env.evalTop(a.Clause)
+		c.oblige("assert", fmt.Sprintf("%s#at-call[%s].assert[%s]", c.relName(top.fn), short, lbl(a.Clause)), a.Clause.Label, a.Clause.Props, g.Term, site.Pos(), a.Clause.Src)
+		c.atCallSeen[a] = true
+	}
+}
+
 // applyEffect executes "target = expr" on st.
 func (c *Ctx) applyEffect(env *Env, st *State, ef *Effect) {
 	ne := *env
@@ -612,6 +650,7 @@ func (c *Ctx) invoke(fr *Frame, st *State, site ssa.Instruction, recv *Val, m *t
 	it := recv.T
 	c.safety(fr, "nil-iface-call "+m.Name()+" "+exprText(fr, site), site, not(eq(app("itag", recv.Term), "0")))
 	c.assume(not(eq(app("itag", recv.Term), "0")))
+	c.atInvokeAsserts(fr, st, site, recv, m, args)
 	// dynamic dispatch: in-package implementers whose method is under contract are called through
 	// that contract; every other dynamic type goes through the interface-method contract (or the default)
 	cands := c.prog.implementers(it, m.Name())
@@ -1255,6 +1294,21 @@ func (c *Ctx) keptLeaves(con *Contract) [][2]string {
 		parts := strings.SplitN(it, ".", 2)
 		if len(parts) != 2 || rp == nil {
 			c.unsupported("keeps item %q", it)
+			continue
+		}
+		if parts[0] == "ghost" {
+			// a ghost variable (scalar leaf of the package variable "ghost")
+			names, sorts := c.ghostLeaves()
+			found := false
+			for i, n := range names {
+				if n == "G:"+rootPkg+".ghost."+parts[1] {
+					out = append(out, [2]string{n, sorts[i]})
+					found = true
+				}
+			}
+			if !found {
+				c.unsupported("keeps: no ghost variable %q", it)
+			}
 			continue
 		}
 		tn, ok := rp.Members[parts[0]].(*ssa.Type)
